@@ -186,6 +186,7 @@ type Job struct {
 	MaxEnum  int
 	MaxPaths int
 	MaxDepth int
+	Delays   int // concurrent harnesses: bound on the scheduling delays of a path
 	Artificial bool
 	Filter     func(assertID string) bool // assertions outside the property under check are skipped
 	AllocLimit int         // cells: a single allocation above this is reported (0 = no limit)
@@ -224,6 +225,7 @@ type Tape struct {
 	Known    string            `json:"known,omitempty"`
 	Notes    map[string]uint64 `json:"-"`
 	Summarised bool            `json:"summarised,omitempty"` // path used the uninterpreted hash summary
+	Conc       bool            `json:"conc,omitempty"`       // path ran more than one goroutine: "sched" inputs are its schedule
 }
 
 type TapeExpect struct {
@@ -527,7 +529,7 @@ func (wk *Worker) runItem(it WorkItem) {
 	for _, f := range pr.Failures {
 		// counterexamples from paths that used the hash summary may not survive the concrete
 		// re-run with the real hash: they do not count towards the early stop
-		if f.Known == "" && f.Tape != nil && !f.Tape.Summarised {
+		if f.Known == "" && f.Tape != nil && !f.Tape.Summarised && (j.Filter == nil || j.Filter(f.Tape.Expect.Fail)) {
 			nfail++
 		}
 	}
@@ -647,7 +649,9 @@ func (wk *Worker) runPath(it WorkItem) (pr *PathResult, pending []WorkItem, func
 			funcs[f.String()] = true
 		}
 		pending = ex.pending
-		if r := recover(); r != nil {
+		r := recover()
+		ex.concEnd()
+		if r != nil {
 			switch e := r.(type) {
 			case pathAbort:
 				pr.End = e.reason
@@ -813,7 +817,7 @@ func (ex *Exec) extractTape(terms []*Term) *Tape {
 		ex.path.Inconclusive = append(ex.path.Inconclusive, "get-value failed: "+ex.sv.lastErr)
 		return nil
 	}
-	tp := &Tape{Job: ex.job.ID, Property: ex.job.Property, Harness: ex.job.Harness, Pkg: ex.job.Pkg, Tags: ex.job.Tags, Params: ex.job.Params, Summarised: ex.path.Summaries > 0}
+	tp := &Tape{Job: ex.job.ID, Property: ex.job.Property, Harness: ex.job.Harness, Pkg: ex.job.Pkg, Tags: ex.job.Tags, Params: ex.job.Params, Summarised: ex.path.Summaries > 0, Conc: ex.conc != nil && len(ex.conc.gs) > 1}
 	k := 0
 	for _, in := range ex.inputs {
 		if in.Kind == "arrfixed" {
